@@ -17,3 +17,11 @@ var DictAEADIdentifierValueIndexed = map[uint16]string{
 	0x0003: "ChaCha20Poly1305",
 	0xFFFF: "Export-only", // RFC 9180
 }
+
+var DictAEADIdentifierNameIndexed = map[string]uint16{
+	"Reserved":         0x0000, // RFC 9180
+	"AES-128-GCM":      0x0001,
+	"AES-256-GCM":      0x0002,
+	"ChaCha20Poly1305": 0x0003,
+	"Export-only":      0xFFFF, // RFC 9180
+}
